@@ -21,6 +21,7 @@ type Monitor[C Conn] struct {
 
 func (m *Monitor[C]) Notify() {
 	m.lastActivity.Store(time.Now())
+	verifRestamp(&m.lastActivity)
 }
 
 func (m *Monitor[C]) LastActivity() time.Time {
